@@ -1,8 +1,10 @@
 """C12 — whitespace control follows the documented trimming rules.
 
-proof : Properties/C12.v (only_whitespace_removed for every source; trim_refines_left /
-        trim_refines_right: the lexer's text stripping and end-of-tag consumption equal the documented
-        rules for every text; trim_refines_small_scope: whole one-tag skeletons, Coq-checked enumeration)
+proof : Properties/C12.v (trim_refines: data(tokeniter(unparse sk)) = spec_trim sk for EVERY well-formed
+        skeleton, all four settings, default delimiters; trim_refines_cfg / _families: the same for every
+        configuration satisfying the bundle skel_cfg, proved for <% %> <%= %> <%# #%> and $% %$ ${ } $# #$;
+        rules_commute; only_whitespace_removed for every source; trim_refines_left / _right for every text;
+        the small-scope enumeration kept as a regression instance)
 tie   : K-lex extracted tokeniter == real Lexer.tokeniter on unparsed skeletons; extracted model
         render_data == extracted spec_trim (the whole-template refinement, beyond the Coq enumeration)
 oracle: Template.render of every skeleton instantiation ({% set x = 1 %}, {# c #}, {{ 'V' }},
@@ -95,7 +97,7 @@ def run(ctx):
             parts.append("".join(ctx.rng.choice([" ", " ", "\n", "\t", "a", "b\n", "\x0b", "\x0c"]) for _ in range(ctx.rng.randint(0, 4))))
             parts.append(ctx.rng.choice(tags1))
         parts.append("".join(ctx.rng.choice([" ", "\n", "\t", "a"]) for _ in range(ctx.rng.randint(0, 3))))
-        sks.append((ctx.rng.choice(["default", "default", "angle", "dollar"]), skel(parts)))
+        sks.append((ctx.rng.choice(["default", "default", "angle", "dollar", "asp"]), skel(parts)))
 
     cases = []
     for name, k in sks:
